@@ -69,7 +69,7 @@ func secondFactorProven(s *sim.Sim, st *sim.Step, U, flow string) string {
 	}
 	switch flow {
 	case "totp_validate":
-		if s.Cfg.Has2FA("totp") && u.TOTPSecretKey != "" && sim.TOTPCodes(u.TOTPSecretKey)[a.Secret] && a.Secret2 == "" {
+		if s.Cfg.Has2FA("totp") && u.TOTPSecretKey != "" && sim.TOTPOK(u.TOTPSecretKey, a.Secret) && a.Secret2 == "" {
 			return "totp-code"
 		}
 	case "sms_validate":
